@@ -216,9 +216,18 @@ impl FmtAttribute {
         fields: &syn::Fields,
     ) -> Option<(Expr, syn::Ident)> {
         self.transparent_call().map(|(expr, trait_ident)| {
-            let expr = if let Some(field) = fields
-                .fmt_args_idents()
-                .find(|field| expr == *field || expr == field.unraw())
+            // Only a field named inside the format string stands for the field itself. Inside the
+            // arguments a field's name is a reference to it, like any other expression (this
+            // matters for `Pointer`: `#[display("{:p}", field)]` is the address of the field).
+            let expr = if let Some(field) = self
+                .args
+                .is_empty()
+                .then(|| {
+                    fields
+                        .fmt_args_idents()
+                        .find(|field| expr == *field || expr == field.unraw())
+                })
+                .flatten()
             {
                 field.into()
             } else {
